@@ -11,4 +11,4 @@ done
 git -C /repo checkout -- .
 cp -a $BK/. /verif/evidence/ 2>/dev/null; rm -rf $BK
 # restore generated files to the unchanged tree's
-(cd /verif && /venv/bin/python tools/gen_tables.py lean/H2/Gen/Tables.lean work/gen_summary.json && /venv/bin/python tools/py2lean.py lean/H2/Gen/Windows.lean >/dev/null)
+(cd /verif && /venv/bin/python tools/gen_tables.py lean/H2/Gen/Tables.lean work/gen_summary.json && /venv/bin/python tools/py2lean.py lean/H2/Gen/WindowsRaw.lean >/dev/null)
